@@ -656,6 +656,15 @@ pub fn c11(ctx: &mut Ctx) {
         c11_run(ctx, s);
     }
     ctx.count_n("exhaustive_small_lines", all.len() as u64);
+    // second scope: ideographs (a break opportunity between any two) whose UTF-8 bytes / low
+    // code-point bytes collide with '-' and SHY, next to real hyphens
+    let alpha2: &[&str] = &["中", "字", "キ", "😭", "-", " ", "a", "\u{ad}"];
+    let mut all2: Vec<String> = Vec::new();
+    gen::enumerate_strings(alpha2, if ctx.thorough { 5 } else { 4 }, |s| all2.push(s.to_string()));
+    for s in &all2 {
+        c11_run(ctx, s);
+    }
+    ctx.count_n("exhaustive_small_cjk_lines", all2.len() as u64);
     for _ in 0..ctx.n(25000, 500_000) {
         let fl = gen::flavor(&mut ctx.rng);
         let mut line = gen::para(&mut ctx.rng, fl, 8);
